@@ -196,6 +196,74 @@ Theorem C02_eb_descriptor_round_trip : forall L vals bs rest, gen_eb_descriptor 
 Proof. exact eb_descriptor_round_trip. Qed.
 Print Assumptions C02_eb_descriptor_round_trip.
 
+(* ---------------- the record length of the header delimits the records ---------------- *)
+
+(* LasHeader.read_from, the block that builds the point format of a file (translated on every run into
+   Gen/GenC02.v resolve_record): from the header's Point Data Record Length [ps], the format's record length [std], the
+   number of bytes the Extra Bytes VLR describes [d] and whether there is such a VLR, laspy decides exactly as the
+   specification reads a file: the descriptors apply and the remaining [ps - std - d] bytes of every record are
+   undocumented bytes; records too short for what must be in them are refused *)
+Theorem C02_record_resolution : forall ps std d hv, resolve_record ps std d hv = spec_resolve_record ps std d hv.
+Proof. exact resolve_spec. Qed.
+Print Assumptions C02_record_resolution.
+
+(* ... so nothing of a record is dropped: format + described bytes + undocumented bytes = the header's record length *)
+Theorem C02_resolution_fills_record : forall ps std d hv u t, spec_resolve_record ps std d hv = Ok (u, t) ->
+  0 <= t /\ std + (if u then d else 0) + t = ps.
+Proof. exact resolve_fills. Qed.
+Print Assumptions C02_resolution_fills_record.
+
+(* layouts with [t] undocumented trailing bytes: laspy's (one dimension of t unsigned bytes after the described ones) is the
+   specification's; t = 0 gives the layouts above; all well formed *)
+Theorem C02_full_layout_with_undocumented_bytes : forall f ebs t, 0 <= f <= 10 ->
+  gen_point_layout_rl f ebs t = spec_point_layout_rl f ebs t.
+Proof. exact full_layout_rl. Qed.
+Print Assumptions C02_full_layout_with_undocumented_bytes.
+
+Theorem C02_no_undocumented_bytes : forall f ebs, spec_point_layout_rl f ebs 0 = spec_point_layout f ebs.
+Proof. exact spec_layout_rl_0. Qed.
+Print Assumptions C02_no_undocumented_bytes.
+
+Theorem C02_spec_reads_laspy_undocumented : forall f ebs t vals bs, 0 <= f <= 10 ->
+  gen_enc_point_rl f ebs t vals = Ok bs -> spec_dec_point_rl f ebs t bs = Ok vals.
+Proof. exact spec_reads_laspy_rl. Qed.
+Print Assumptions C02_spec_reads_laspy_undocumented.
+
+Theorem C02_laspy_reads_spec_undocumented : forall f ebs t vals bs, 0 <= f <= 10 ->
+  spec_enc_point_rl f ebs t vals = Ok bs -> gen_dec_point_rl f ebs t bs = Ok vals.
+Proof. exact laspy_reads_spec_rl. Qed.
+Print Assumptions C02_laspy_reads_spec_undocumented.
+
+(* the records of a file as laspy lays them out from (format, Extra Bytes VLR, record length of the header), for EVERY
+   record length, descriptor list, with or without VLR: it is the specification's layout, well formed, its records are
+   exactly as long as the header says, and over it each side decodes what the other encoded; every record image of that
+   length has one reading *)
+Theorem C02_record_layout_of_file : forall f ebs hv ps L, 0 <= f <= 10 -> gen_record_layout f ebs hv ps = Ok L ->
+  spec_record_layout f ebs hv ps = Ok L /\ layout_ok L = true /\ layout_len L = ps
+  /\ (forall vals bs, enc_point L vals = Ok bs -> dec_point L bs = Ok vals /\ len bs = ps)
+  /\ (forall bytes, len bytes = ps -> bytes_ok bytes = true ->
+        exists vals, dec_point L bytes = Ok vals /\ enc_point L vals = Ok bytes).
+Proof. exact record_both_directions. Qed.
+Print Assumptions C02_record_layout_of_file.
+
+(* laspy and the specification also refuse the same files (record shorter than format + described bytes) *)
+Theorem C02_record_layout_same_outcome : forall f ebs hv ps, 0 <= f <= 10 ->
+  gen_record_layout f ebs hv ps = spec_record_layout f ebs hv ps.
+Proof. exact record_layout_spec. Qed.
+Print Assumptions C02_record_layout_same_outcome.
+
+(* LAS 1.4: bytes 107..130 of the header (legacy number of point records / of points by return) are written as the
+   constant 0 by laspy, which the specification's rule allows for every format and count; a non-zero legacy count is
+   allowed only below format 6 *)
+Theorem C02_legacy_counts :
+  map snd (firstn 6 (skipn 15 (gen_hdr_write 4))) = repeat "zero"%string 6
+  /\ map (fun x => fst (fst x)) (firstn 6 (skipn 15 (gen_hdr_write 4))) = repeat KUInt 6
+  /\ layout_width (firstn 15 (gen_hdr_write 4)) = 107 /\ layout_width (firstn 21 (gen_hdr_write 4)) = 131
+  /\ (forall fmt count, spec_legacy_ok fmt count 0 = true)
+  /\ (forall fmt count legacy, spec_legacy_ok fmt count legacy = true -> 6 <= fmt -> legacy = 0).
+Proof. exact legacy_counts. Qed.
+Print Assumptions C02_legacy_counts.
+
 (* a format-6 record with one int16[2] extra dimension: every bit field at its maximum, signed extremes, a NaN payload
    in gps_time; 34 bytes; the laspy-layout encoder and the specification's decoder; an out-of-range return number refused *)
 Example C02_nonvacuous :
@@ -205,5 +273,11 @@ Example C02_nonvacuous :
                 1; 0; 0; 0; 0; 0; 248; 127; 0; 128; 255; 127] in
   gen_enc_point 6 ebs vals = Ok bytes /\ spec_dec_point 6 ebs bytes = Ok vals /\ len bytes = 30 + 4
   /\ spec_enc_point 6 ebs (-2147483648 :: 2147483647 :: -1 :: 65535 :: 16 :: skipn 5 vals) = Err EOverflow
-  /\ spec_dec_point 6 ebs (tl bytes) = Err EShort.
+  /\ spec_dec_point 6 ebs (tl bytes) = Err EShort
+  (* a format-1 file whose VLR describes one uint16 while the records are 34 = 28 + 2 + 4 bytes long: 4 undocumented
+     bytes per record, 21 leaves; without the VLR 6 undocumented bytes; a 29-byte record cannot hold the uint16 *)
+  /\ gen_record_summary 1 [("h"%string, 3, 0)] true 34 = Ok (21, 34)
+  /\ resolve_record 34 28 2 true = Ok (true, 4) /\ resolve_record 34 28 2 false = Ok (false, 6)
+  /\ resolve_record 28 28 2 true = Ok (false, 0) /\ resolve_record 29 28 2 true = Err ELaspy
+  /\ spec_dec_point_rl 1 [("h"%string, 3, 0)] 2 (repeat 0 28 ++ [1; 2; 7; 9]) = Ok (repeat 0 16 ++ [513; 7; 9]).
 Proof. vm_compute. repeat split; reflexivity. Qed.
